@@ -111,6 +111,11 @@ def nz1 {α : Type} [PyNz1 α] (x : α) : List Nat := PyNz1.nz1 x
 @[simp] theorem nz1_rowVec (g : Graph) (i : Nat) : nz1 (rowVec g i) = g.row i := rfl
 @[simp] theorem nz0_colVec (g : Graph) (j : Nat) : nz0 (colVec g j) = g.col j := rfl
 
+/-- truthiness of a container (`if back_edges:`, `not paths`): non-empty.  Scoped: only files that open `Src` see it. -/
+scoped instance {α : Type} : CoeOut (List α) Bool := ⟨fun l => !l.isEmpty⟩
+
+@[simp] theorem coe_list_bool {α : Type} (l : List α) : ((l : Bool)) = !l.isEmpty := rfl
+
 /-- `bool(x)` of a list: non-empty -/
 def pyBool {α : Type} (l : List α) : Bool := !l.isEmpty
 
